@@ -370,19 +370,40 @@ func stress(rng interface{ Intn(int) int }) {
 	p := newProvider(keys()["p256a"])
 	d := &down{}
 	inst := newInstance(p, d, nil)
-	users := 8
+	users := 16
 	jars := make([]jar, users)
 	for u := 0; u < users; u++ {
 		jars[u] = jar{}
-		if u%2 == 0 {
-			var mu sync.Mutex
-			_ = mu
+		if u%4 != 3 {
 			simpleLoginAs(inst, p, jars[u], fmt.Sprintf("user%d@example.com", u))
 		}
 	}
 	var wg sync.WaitGroup
 	bad := make(chan string, 64)
-	iters := T.size(150, 600)
+	iters := T.size(300, 1500)
+	var progress atomic.Int64
+	stop := make(chan struct{})
+	// the instance's periodic housekeeping (the one-minute ticker's body), compressed in time, next to the traffic
+	hkRuns := 0
+	hkDone := make(chan struct{})
+	go func() {
+		defer close(hkDone)
+		defer func() { recover() }()
+		for {
+			select {
+			case <-stop:
+				return
+			default:
+			}
+			if !housekeeping(inst) {
+				return
+			}
+			hkRuns++
+			if hkRuns%64 == 0 {
+				time.Sleep(50 * time.Microsecond)
+			}
+		}
+	}()
 	for u := 0; u < users; u++ {
 		wg.Add(1)
 		go func(u int) {
@@ -400,39 +421,57 @@ func stress(rng interface{ Intn(int) int }) {
 				jars[u].addTo(req)
 				rec := httptest.NewRecorder()
 				inst.ServeHTTP(rec, req)
-				if u%2 == 0 && rec.Code != 200 {
+				progress.Add(1)
+				if u%4 != 3 && rec.Code != 200 {
 					select {
-					case bad <- fmt.Sprintf("logged-in browser %d answered %d", u, rec.Code):
+					case bad <- fmt.Sprintf("logged-in browser answered %d", rec.Code):
 					default:
 					}
 				}
-				if u%2 == 1 {
-					resp := http.Response{Header: rec.Header()}
-					if rec.Code == 200 {
-						select {
-						case bad <- fmt.Sprintf("anonymous browser %d was forwarded", u):
-						default:
-						}
+				if u%4 != 3 {
+					d.mu.Lock()
+					d.mu.Unlock()
+				}
+				if u%4 == 3 && rec.Code == 200 {
+					select {
+					case bad <- "anonymous browser was forwarded":
+					default:
 					}
-					// the state in Location must be the state in this response's own cookie: checked by presenting it back
-					_ = resp
 				}
 			}
 		}(u)
 	}
 	done := make(chan struct{})
 	go func() { wg.Wait(); close(done) }()
-	select {
-	case <-done:
-	case <-time.After(120 * time.Second):
-		T.oracle("C05", "concurrent load deadlocked (120 s without completion)", nil, M{"family": "sched", "stress": true})
-		return
+	// watchdog: no request completes for 10 s although requests are outstanding = the instance hangs
+	last, idle := int64(-1), 0
+	tick := time.NewTicker(time.Second)
+	defer tick.Stop()
+loop:
+	for {
+		select {
+		case <-done:
+			break loop
+		case <-tick.C:
+			if n := progress.Load(); n == last {
+				idle++
+				if idle >= 10 {
+					T.oracle("C05", "requests hang under concurrent load with the periodic housekeeping running (no request completed for 10 s)", M{"completed": n, "of": users * iters, "housekeeping_cycles": hkRuns}, M{"family": "sched", "stress": true})
+					return
+				}
+			} else {
+				last, idle = n, 0
+			}
+		}
 	}
+	close(stop)
+	<-hkDone
 	close(bad)
 	for b := range bad {
 		T.oracle("C05", "concurrent load: "+b, nil, M{"family": "sched", "stress": true})
 	}
 	T.statN("sched.stress.requests", users*iters)
+	T.statN("sched.stress.housekeeping-cycles", hkRuns)
 }
 
 func simpleLoginAs(inst http.Handler, p *provider, j jar, email string) bool {
